@@ -16,7 +16,7 @@ import subprocess
 
 from cv.core import LEAN_DIR, LeanBuild
 
-EXC_NONE = (AssertionError, IndexError, ZeroDivisionError)
+EXC_NONE = (AssertionError, IndexError, ZeroDivisionError, ValueError)
 
 
 def _fmt_args(args):
@@ -36,18 +36,22 @@ def _show_ints(l):
 
 
 def _render(v):
-    if isinstance(v, bool):
-        return "true" if v else "false"
-    if isinstance(v, dict) and not isinstance(v, Raw):  # an insertion-ordered dict str -> list[int]
-        return " | ".join(f"{k}: {_show_ints(x)}" for k, x in v.items())
+    """canonical rendering, the same as `ShowRes` in the generated `CvGen/PyDispatch.lean` (Python-repr style)"""
     if isinstance(v, Raw):  # captured create() call
-        return ("gens: " + " | ".join(_show_ints(g) for g in v["gens"])
-                + " ; central: " + ("none" if v["central"] is None else _show_ints(v["central"]))
-                + " ; names: " + ("none" if v["names"] is None else " | ".join(v["names"]))
-                + " ; name: " + ("none" if v["name"] is None else v["name"]))
-    if v and isinstance(v[0], (list, tuple)):
-        return " | ".join(_show_ints(g) for g in v)
-    return _show_ints(v)
+        return "create(" + ", ".join(_render(v[k]) for k in ("gens", "names", "central", "name")) + ")"
+    if v is None:
+        return "None"
+    if isinstance(v, bool):
+        return "True" if v else "False"
+    if isinstance(v, str):
+        return "'" + v + "'"
+    if isinstance(v, dict):  # insertion-ordered dict str -> value: rendered as the list of its items
+        return "[" + ", ".join("(" + _render(k) + ", " + _render(x) + ")" for k, x in v.items()) + "]"
+    if isinstance(v, tuple):
+        return "(" + ", ".join(_render(x) for x in v) + ")"
+    if isinstance(v, list):
+        return "[" + ", ".join(_render(x) for x in v) + "]"
+    return str(int(v))
 
 
 class Raw(dict):
@@ -68,6 +72,40 @@ def globe_requests(thorough):
             reqs.append(("Globe.globe_gens", gb.globe_gens, [a, b]))
             reqs.append(("Globe.globe_puzzle", gb.globe_puzzle, [a, b]))
     return reqs, gb
+
+
+def rings_requests(report, thorough):
+    import cayleypy.puzzles.hungarian_rings as hr
+
+    ok = {k for k, v in report.items() if v == "translated"}
+    reqs = []
+    top = 8 if thorough else 6
+    lists = [[], [5], [0, 1], [0, 1, 2, 3], [4, 3, 2, 1, 0], [7, 7, 1]]
+    for items in lists:
+        for step in range(-4, 8):
+            reqs.append(("Rings._circular_shift", hr._circular_shift, [items, step]))
+    for li in range(-1, 4):
+        for ri in range(-1, 4):
+            reqs.append(("Rings._get_intersections", hr._get_intersections, [li, ri]))
+    for ls in range(0, top + 1):
+        for rs in range(0, top + 1):
+            for li in range(-1, ls + 1):
+                for ri in range(-1, rs + 1):
+                    reqs.append(("Rings.hungarian_rings_generators", hr.hungarian_rings_generators, [ls, li, rs, ri]))
+                    for step in (1, -1, 0, 2, 5, -3):
+                        if (ls + rs + li + ri + step) % 3 == 0 or step in (1, -1):
+                            reqs.append(("Rings.hungarian_rings_permutations", hr.hungarian_rings_permutations, [ls, li, rs, ri, step]))
+                    if li >= 0 and ri >= 0 and (ls + rs) % 2 == 0:
+                        full = ls + rs - (1 if li == 0 and ri == 0 else 2)
+                        reqs.append(("Rings._create_right_ring", hr._create_right_ring, [ls, li, rs, ri, full]))
+    for n in range(-2, 41):
+        reqs.append(("Rings.get_santa_parameters_from_n", hr.get_santa_parameters_from_n, [n]))
+    for n in range(0, 13 if not thorough else 18):
+        reqs.append(("Rings.get_group", hr.get_group, [n]))
+    for a in range(0, 9):
+        for b in range(0, 9):
+            reqs.append(("Rings.get_pair_variants", hr.get_pair_variants, [a, b]))
+    return [r for r in reqs if r[0].split(".", 1)[1] in ok]
 
 
 def perm_requests(rng, thorough):
@@ -159,6 +197,8 @@ def run(ck, report, rng, thorough=False, which=("perm", "fam")):
     if "globe" in which:
         gr, GB = globe_requests(thorough)
         reqs += gr
+    if "rings" in which:
+        reqs += rings_requests(report.get("hungarian_rings", {}), thorough)
     lines = [f"{fn} ; {_fmt_args(args)}" for fn, _, args in reqs]
     r = subprocess.run(["lake", "env", "lean", "--run", "PyRun.lean"], cwd=LEAN_DIR, input="\n".join(lines) + "\n",
                        capture_output=True, text=True, timeout=1800)
